@@ -322,7 +322,7 @@ impl<H: Header> DynSizedStructure<H> {
 //@extract multiboot2-common/src/lib.rs :: impl<H: Header> DynSizedStructure<H> :: fn ref_from_ptr
 //@  ret r
 //@  rules R2
-//@  rewrite /slice::from_raw_parts\(\s*(\w+)\.cast::<u8>\(\)\s*,\s*(\w+)\.total_size\(\)\s*\)/ => /bytes_from_raw_parts(\1.cast::<u8>(), \2.total_size())/
+//@  rewrite /slice::from_raw_parts\(\s*(\w+)\.cast::<u8>\(\)\s*,\s*([\w\.]+(?:\(\))?)\s*\)/ => /bytes_from_raw_parts(\1.cast::<u8>(), \2)/
 //@  prologue proof { let hh = decode::<H>(mem_at(nonnull_ptr(ptr)@.provenance, nonnull_ptr(ptr)@.addr as int, size_of::<H>() as int)); hh.lemma_hdr_layout(); }
 //@  spec:
 //@    requires
